@@ -11,49 +11,78 @@ ASSUMPTIONS = ["J1939-21: single-step theorems (refusal iff busy, inbound never 
 
 
 def correspondence(ctx):
-    a = corr21.run(ctx, 120 if ctx.quick else 4000, 60 if ctx.quick else 2000, 10)
-    b = corr22.run(ctx, 60 if ctx.quick else 2500, 60 if ctx.quick else 2500, 10, n_lossy=80 if ctx.quick else 3000)
+    a = corr21.run(ctx, ctx.n(120, 4000), ctx.n(60, 2000), 10)
+    b = corr22.run(ctx, ctx.n(60, 2500), ctx.n(60, 2500), 10, n_lossy=ctx.n(80, 3000))
     return corr22.merge(a, b)
 
 
 class PairTracker:
-    """which (sa, da) pairs carry a transfer, judged from the bus alone"""
+    """which (sa, da) pairs carry a transfer, judged from the bus and from the frames actually delivered.
+    An abort frame from X to Y does not say which direction it is about (X giving up as originator of X->Y, or X
+    refusing/ending as responder of Y->X): it ends a session only when one of the two readings is impossible; a session
+    that resumes sending afterwards is re-opened; 1.6 s of silence on a pair ends everything on it (all timeouts are
+    <= 1.25 s)."""
+    SILENCE = 1_600_000
 
     def __init__(self):
-        self.active = {}     # (sa, da) -> dict(start, total, sent, end)
+        self.active = {}     # (sa, da) -> dict(start, total, sent, end, why, bam)
+        self.last = {}       # frozenset({a, b}) -> time of the last TP frame between a and b
+
+    def is_open(self, key):
+        a = self.active.get(key)
+        return a is not None and a['end'] is None
 
     def on_frame(self, t, cid, data):
-        """a frame on the bus: what the originator itself sent is known to it"""
+        """a frame on the bus: what a stack sends it knows"""
         prio, dp, pf, ps, sa = net21.parse_frame(cid, data)
+        if pf in (TP_CM, TP_DT):
+            self.last[frozenset((sa, ps))] = t
         if pf == TP_CM and len(data) == 8:
             c = data[0]
             if c in (16, 32):
-                self.active[(sa, ps)] = dict(start=t, total=data[3], sent=0, end=None, bam=(c == 32))
+                self.active[(sa, ps)] = dict(start=t, total=data[3], sent=0, end=None, why=None, bam=(c == 32))
             elif c == 255:
-                a = self.active.get((sa, ps))          # the originator gives up (timeout)
-                if a and a['end'] is None and not a['bam']:
-                    a['end'] = t
+                self.doubt(sa, ps)
+                if self.is_open((sa, ps)) and not self.is_open((ps, sa)) and not self.active[(sa, ps)]['bam']:
+                    self.active[(sa, ps)].update(end=t, why='own-abort')          # the originator gives up
         elif pf == TP_DT:
             a = self.active.get((sa, ps))
-            if a and a['end'] is None:
-                a['sent'] += 1
-                if a['bam'] and a['sent'] >= a['total']:
-                    a['end'] = t
+            if a:
+                if a['end'] is not None and a['why'] == 'abort':
+                    a.update(end=None, why=None)                                   # it went on: the abort was not for it
+                if a['end'] is None:
+                    a['doubt'] = False                                             # it is sending: alive
+                    a['sent'] += 1
+                    if a['bam'] and a['sent'] >= a['total']:
+                        a.update(end=t, why='done')
+
+    def doubt(self, x, y):
+        """an abort between x and y was seen: until a session shows life again it may or may not be over"""
+        for key in ((x, y), (y, x)):
+            if self.is_open(key) and not self.active[key]['bam']:
+                self.active[key]['doubt'] = True
 
     def on_rx(self, t, cid, data):
         """a frame a stack actually received (a lost acknowledgement or abort ends nothing)"""
         prio, dp, pf, ps, sa = net21.parse_frame(cid, data)
-        if pf == TP_CM and len(data) == 8 and data[0] in (19, 255):
-            a = self.active.get((ps, sa))
-            if a and a['end'] is None and not a['bam']:
-                a['end'] = t
+        if pf == TP_CM and len(data) == 8:
+            if data[0] == 255:
+                self.doubt(sa, ps)
+            if data[0] == 19 and self.is_open((ps, sa)) and not self.active[(ps, sa)]['bam']:
+                self.active[(ps, sa)].update(end=t, why='ack')
+            elif data[0] == 255 and not self.is_open((sa, ps)) and self.is_open((ps, sa)) and not self.active[(ps, sa)]['bam']:
+                self.active[(ps, sa)].update(end=t, why='abort')
 
     def status(self, key, t):
         a = self.active.get(key)
         if a is None:
             return 'idle'
+        if t - self.last.get(frozenset(key), 0) > self.SILENCE:
+            return 'idle'
         if a['end'] is None:
-            return 'busy' if t - a['start'] > 0 else 'ambiguous'
+            return 'busy' if t - a['start'] > 0 and not a.get('doubt') else 'ambiguous'
+        if a['why'] == 'abort':
+            return 'ambiguous' if t - a['end'] < 300_000 else 'idle'      # the originator ignores an abort while it is sending
         return 'idle' if t - a['end'] > 20000 else 'ambiguous'
 
 
@@ -181,7 +210,7 @@ def history_case22(rng):
 
 def oracle(ctx, full):
     rng = random.Random(ctx.seed * 7907 + 10)
-    n = 80 if (ctx.quick and not full) else 3000
+    n = ctx.n(80, 3000, full)
     findings, evals, distinct, samples = [], 0, set(), []
     for _ in range(n):
         sub = random.Random(rng.getrandbits(48))
